@@ -122,7 +122,8 @@ CHECKS += [
               "== semantics, sqrt() (via the exact isqrt specification), ZOmega.normalize are proved as polynomial integer identities for ALL "
               "coefficient values (no bound, except |coeff|<=6 for normalize). CrossHair: _primality_test == trial division confirmed for 0..300; "
               "bounded counterexample search for DyadicMatrix +/@ exactness/associativity/distributivity, % congruence, primality up to 12000. "
-              "Thorough: the real tail of _solve_diophantine with factoring subroutines stubbed by arbitrary ring elements.",
+              "(The real tail of _solve_diophantine with its factoring subroutines stubbed by arbitrary ring elements was tried in the thorough tier with 10 and 40 minute budgets; its path "
+              "exploration does not finish and it is stated as outside.)",
          note=E5_NOTE + "Shims: `int` and `math` in the rings module namespace (int(x) keeps symbols; isqrt by specification). Outside: float code paths for coefficients >= 2^53, ZSqrtTwo.__mod__ neighbour search, SO3Matrix, Pollard/Miller-Rabin loops beyond the bounds.",
          technique="lifted execution of the real ring classes on z3 integers (NIA identity proofs, unbounded); CrossHair for bounded number-theoretic parts"),
 ]
